@@ -119,9 +119,14 @@ def main():
                         gjar.add(o)
                 gjar.commit()
                 gjar.cache.minimize()
+            snap = [list(o.keys()) if hasattr(o, '_p_jar') else None for o in ops_real]
             try:
                 res = mu(ops_real)
                 kindname = 'Set' if type(res) is SE else type(res).__name__
+                if any(sn is not None and list(o.keys()) != sn for o, sn in zip(ops_real, snap)):
+                    kindname = 'operand-changed'        # (the union is a new set: no operand is touched)
+                elif any(res is o for o in ops_real):
+                    kindname = 'result-is-an-operand'
                 got = [rank.get(k, 'key?%r' % (k,)) for k in res]
                 probes = [rng.randint(1, len(K)) for _ in range(12)] + (got[:3] if got and isinstance(got[0], int) else [])
                 probe = [[r, 1 if K[r - 1] in res else 0] for r in probes if isinstance(r, int)]
